@@ -229,7 +229,7 @@ def run_case(case):
                                     ("posdef_ked", D.evaluate_posdef_kinetic_energy_density, tpos, tpos_sc, {"deriv_type": dt})):
         i0 = int(np.argmin(v))
         vmin = float(v[i0])
-        if vmin < 0 and abs(vmin) > 1e-5 * float(vsc[i0]):
+        if vmin < 0 and abs(vmin) > 1e-5 * float(vsc[i0]) and abs(vmin) > 1e-250:  # (a bracket of relative width 1e-6 needs normal numbers: FA27)
             a = abs(vmin)
             for thr, expect in ((a * (1 + 1e-6), "clip"), (a * (1 - 1e-6), "raise"), (a / 2 * (1 + 1e-6), "raise"), (a / 2 * (1 - 1e-6), "raise"),
                                 (2 * a, "clip"), (0.0, "raise"), (a * 1e3, "clip")):
